@@ -459,6 +459,7 @@ Definition sent_ns (a : snap_ent) : string := let '(n, _, _, _) := a in n.
 Definition sent_id (a : snap_ent) : Z := let '(_, _, _, i) := a in i.
 
 Record tc_obs := { to_err : bool; to_panic : bool; to_ret : Z; to_evs : list tc_ev;
+                   to_mid : list (list snap_ent);   (* view from inside each lifecycle callback *)
                    to_snap : list snap_ent; to_spaces : list string }.
 Record tc_case := { tcc_ops : list tc_op; tcc_obs : list tc_obs; tcc_bad : bool }.
 
@@ -470,11 +471,28 @@ Definition subset {A} (eqb : A -> A -> bool) (a b : list A) : bool := forallb (f
 Definition same_set {A} (eqb : A -> A -> bool) (a b : list A) : bool :=
   subset eqb a b && subset eqb b a && Nat.eqb (List.length a) (List.length b).
 
-Definition tc_corr_one (m : tc_state * tc_result) (o : tc_obs) : bool :=
+(** views from inside the lifecycle callbacks of one op, per the model *)
+Definition tc_mids (pre : tc_state) (op : tc_op) (r : tc_result) : list (list snap_ent) :=
+  match op with
+  | TClean _ | TGet _ _ => []
+  | _ => match tr_evs r with [] => [] | _ => [snap_of (tc_during pre op)] end
+  end.
+
+Definition tc_corr_one (pre : tc_state) (op : tc_op) (m : tc_state * tc_result) (o : tc_obs) : bool :=
   let '(st, r) := m in
   negb (to_panic o) && Bool.eqb (tr_err r) (to_err o) && (tr_ret r =? to_ret o) &&
   list_eqb tev_eqb (tr_evs r) (to_evs o) && same_set sent_eqb (snap_of st) (to_snap o) &&
-  same_set String.eqb (map fst (ts_spaces st)) (to_spaces o).
+  same_set String.eqb (map fst (ts_spaces st)) (to_spaces o) &&
+  list_eqb (same_set sent_eqb) (tc_mids pre op r) (to_mid o).
+
+Fixpoint tc_corr_all (pre : tc_state) (ops : list tc_op) (obs : list tc_obs) : bool :=
+  match ops, obs with
+  | [], [] => true
+  | op :: ot, o :: bt =>
+      let m := tc_step pre op in
+      tc_corr_one pre op m o && tc_corr_all (fst m) ot bt
+  | _, _ => false
+  end.
 
 Definition ev_tag (e : tc_ev) : option (Z * Z) :=
   match e with TInit _ i _ t | TInherit _ i _ t _ => Some (i, t) | _ => None end.
@@ -494,8 +512,26 @@ Definition find_ent (snap : list snap_ent) (k : tc_cat * string * string) : opti
 
 (** the property on the implementation's own observations: previous snapshot [prev], tags of the
     live instances [tags] (from the Init/Inherit events seen so far) *)
+(** inside the operation: every OTHER object is served as before; and while an object is being
+    created over / updated / applied, its previous generation is still served (never unavailable) *)
+Definition tc_mid_ok (prev : list snap_ent) (op : tc_op) (m : list snap_ent) : bool :=
+  match tc_target op with
+  | None => true
+  | Some k =>
+      same_set sent_eqb (filter (fun a => negb (sent_key_eqb a k)) prev)
+                        (filter (fun a => negb (sent_key_eqb a k)) m) &&
+      match op with
+      | TCreate _ _ _ _ | TUpdate _ _ _ _ | TApply _ _ _ _ =>
+          match find_ent prev k with
+          | Some i => opt_eqb Z.eqb (find_ent m k) (Some i)
+          | None => true
+          end
+      | _ => true
+      end
+  end.
+
 Definition tc_prop_one (prev : list snap_ent) (tags : list (Z * Z)) (op : tc_op) (o : tc_obs) : bool :=
-  negb (to_panic o) &&
+  negb (to_panic o) && forallb (tc_mid_ok prev op) (to_mid o) &&
   match op with
   | TClean ns =>
       (* frame: other namespaces untouched; only objects of [ns] are closed *)
@@ -561,11 +597,16 @@ Definition tc_has_close (o : tc_obs) : bool :=
 
 Definition check_tc (pinned : rquirks) (c : tc_case) : result :=
   if tcc_bad c then (true, true, 0%N, 0%N) else
-  (forallb2 tc_corr_one (tc_run tc_state0 (tcc_ops c)) (tcc_obs c),
+  (tc_corr_all tc_state0 (tcc_ops c) (tcc_obs c),
    tc_prop_all [] [] (tcc_ops c) (tcc_obs c),
    (1 + bN (existsb (fun b => b) (map (fun '(a, b) => tc_is_noop a b) (combine (tcc_ops c) (tcc_obs c)))) 1
       + bN (existsb tc_has_inherit (tcc_obs c)) 2 + bN (existsb tc_has_close (tcc_obs c)) 4)%N,
    0%N).
 
-Definition explain_tc (c : tc_case) :=
-  map (fun '(st, r) => (tr_err r, tr_ret r, tr_evs r, snap_of st)) (tc_run tc_state0 (tcc_ops c)).
+Fixpoint explain_tc_from (pre : tc_state) (ops : list tc_op) :=
+  match ops with
+  | [] => []
+  | op :: t => let '(st, r) := tc_step pre op in
+               (tr_err r, tr_ret r, tr_evs r, tc_mids pre op r, snap_of st) :: explain_tc_from st t
+  end.
+Definition explain_tc (c : tc_case) := explain_tc_from tc_state0 (tcc_ops c).
